@@ -32,6 +32,9 @@ func keyLoop(A *pa.Analysis, fn *ssa.Function, key string) (*model.RangeLoop, in
 				continue
 			}
 			f := A.Cond(ifi.Cond)
+			if f.Op == '!' { // `if x.Key != key { continue }`
+				f = f.Kids[0]
+			}
 			if f.Op != 'a' {
 				continue
 			}
